@@ -281,6 +281,24 @@ def eval_point(case):
     r = run("fill_n", lambda: h2.fill_n(np.array([p])))
     if r.ok:
         results["fill_n"] = (None, cell_of(h2))
+    if nd > 1:
+        # the same point handed over column-wise (one array per source coordinate)
+        hc = make_empty(name)
+        r = run("fill_n_columns", lambda: hc.fill_n(np.array([p]).T, columns=True))
+        if r.ok:
+            results["fill_n_columns"] = (None, cell_of(hc))
+        hc2 = make_empty(name)
+        r = run("fill_n_columns2", lambda: hc2.fill_n(np.array([p, p]).T, columns=True))
+        if r.ok:
+            f2 = np.asarray(hc2.frequencies)
+            nz = np.argwhere(f2 != 0)
+            if len(nz) == 0:
+                cc = None
+            elif len(nz) == 1 and f2[tuple(nz[0])] == 2:
+                cc = tuple(int(i) for i in nz[0])
+            else:
+                cc = "multi:" + repr(f2.tolist())
+            results["fill_n_columns2"] = (None, cc)
     h3 = make_empty(name)
     before = np.asarray(h3.frequencies).copy()
     r = run("find_bin", lambda: h3.find_bin(np.array(p)))
@@ -497,7 +515,32 @@ def eval_projection(case):
         rad = getattr(r, "radius", None)
         if rad != EDGES["rho"][-1]:
             out.append(V("projection_radius", f"{sb}|radius", case, EDGES["rho"][-1], fl(rad) if rad is not None else None))
-    # the projection is itself a working special histogram: a point lands where its coordinates say
+    # the cylinder-surface projection is a working histogram: emptied and given the same Cartesian points again (one by
+    # one, as a batch, and as find_bin questions), it shows the same marginal
+    if want_cls == "CylindricalSurfaceHistogram":
+        pts = np.array(all_points(name))
+        e1 = r.copy(include_frequencies=False)
+        rr1 = call(lambda: e1.fill_n(pts))
+        e2 = r.copy(include_frequencies=False)
+
+        def one_by_one():
+            for q in pts:
+                ix = e2.find_bin(q)
+                if e2.fill(q) != ix:
+                    raise AssertionError("fill and find_bin disagree")
+
+        rr2 = call(one_by_one)
+        # reference: the (phi, z) coordinates by the formulas, entered as already transformed (every point counts here, also
+        # those whose rho lies outside the parent's rho bins)
+        e3 = r.copy(include_frequencies=False)
+        tc = np.array([formulas("cylindrical", tuple(q))[1:] for q in pts])
+        e3.fill_n(tc, transformed=True)
+        ref = np.asarray(e3.frequencies).tolist()
+        for nm, rr, e in (("fill_n", rr1, e1), ("fill", rr2, e2)):
+            if not rr.ok:
+                out.append(V("projection_usable", f"{sb}|surface_{nm}_raises|{exc_sig(rr.exc)}", case, "accepted", rr.describe()))
+            elif np.asarray(e.frequencies).tolist() != ref:
+                out.append(V("projection_usable", f"{sb}|surface_{nm}_contents", case, ref, np.asarray(e.frequencies).tolist()))
     if want_cls in ("RadialHistogram", "AzimuthalHistogram") and name in ("polar",):
         p = (0.5, 0.5)
         rr = call(lambda: r.find_bin(np.array(p)))
